@@ -802,7 +802,8 @@ impl img::DiskImage for Td0 {
         if has_comment {
             ans.comment_header = Some(CommentHeader::from_bytes(&optional_get_slice!(expanded,ptr,10,"comment header").to_vec()).expect("unreachable"));
             let comment_len = u16::from_le_bytes(ans.comment_header.as_ref().unwrap().data_length) as usize;
-            ans.comment_data = Some(String::from_utf8_lossy(&optional_get_slice!(expanded,ptr,comment_len,"comment data").to_vec()).to_string());
+            // lines are separated by nulls in the file (see `to_bytes`)
+            ans.comment_data = Some(String::from_utf8_lossy(&optional_get_slice!(expanded,ptr,comment_len,"comment data").to_vec()).replace("\x00","\n"));
             debug!("comment data `{}`",ans.comment_data.as_ref().unwrap());
             // CRC of comment
             if u16::from_le_bytes(ans.comment_header.as_ref().unwrap().crc)!=crc16(0,&expanded[14..22+comment_len]) {
